@@ -4,6 +4,7 @@ package proxy
 
 import (
 	"reflect"
+	"strconv"
 	"unsafe"
 
 	"github.com/tencent/goom/erro"
@@ -37,6 +38,10 @@ func Interface(ifaceVar interface{}, ctx *iface.IContext, method string, imp int
 		cause := erro.NewArgsNotMatchError(imp, argLen, maxLen+1)
 		return erro.NewIllegalParamCError("interface As()", reflect.ValueOf(imp).String(), cause)
 	}
+	// check the rest of the signature: exact args len, returns len and the size of every slot
+	if cause := checkSignature(typ.Method(funcTabIndex).Type, reflect.TypeOf(imp)); cause != nil {
+		return erro.NewIllegalParamCError("interface As()", reflect.ValueOf(imp).String(), cause)
+	}
 
 	// 首次调用备份 iface
 	gen := hack.UnpackEFace(ifaceVar).Data
@@ -56,6 +61,27 @@ func Interface(ifaceVar interface{}, ctx *iface.IContext, method string, imp int
 		fakeIface = iface.MakeInterface(ctx, funcTabIndex, itabFunc, typ)
 		ctx.Cache(ifaceCacheKey, fakeIface)
 		applyIfaceTo(fakeIface, gen)
+	}
+	return nil
+}
+
+// checkSignature 检查代理函数(第一个参数为 *IContext)和接口方法的签名是否对齐
+func checkSignature(methodType, impType reflect.Type) error {
+	if impType.NumIn() != methodType.NumIn()+1 {
+		return erro.NewArgsNotMatchError(nil, impType.NumIn(), methodType.NumIn()+1)
+	}
+	if impType.NumOut() != methodType.NumOut() {
+		return erro.NewReturnsNotMatchError(nil, impType.NumOut(), methodType.NumOut())
+	}
+	for i := 0; i < methodType.NumIn(); i++ {
+		if impType.In(i+1).Size() != methodType.In(i).Size() {
+			return erro.NewIllegalParamTypeError("arg "+strconv.Itoa(i), impType.In(i+1).String(), methodType.In(i).String())
+		}
+	}
+	for i := 0; i < methodType.NumOut(); i++ {
+		if impType.Out(i).Size() != methodType.Out(i).Size() {
+			return erro.NewIllegalParamTypeError("return "+strconv.Itoa(i), impType.Out(i).String(), methodType.Out(i).String())
+		}
 	}
 	return nil
 }
